@@ -1,6 +1,7 @@
 package main
 
 import (
+	"go/types"
 	"context"
 	"encoding/json"
 	"flag"
@@ -71,11 +72,83 @@ func newUnitMode(sh *Shared, cs *ContractSet, fn *ssa.Function, asImpl bool) *Un
 			u.implOf = ic.Key
 		}
 	}
+	if u.contract == nil {
+		if fk, ok := sh.fieldOfClosure[fn]; ok {
+			if fc := cs.ByKey[fk]; fc != nil {
+				// a closure stored into a function-typed field with a `funcfield` contract is verified against it
+				cp := *fc
+				cp.Trusted = false
+				u.contract = &cp
+				u.implOf = fk
+				u.paramAliasIdx = map[string]int{}
+				if nt, fname := fieldContractSig(sh, fk); nt != nil {
+					for i := 0; i < nt.Params().Len() && i < len(fn.Params); i++ {
+						if n := nt.Params().At(i).Name(); n != "" && n != "_" {
+							u.paramAliasIdx[n] = i
+						}
+					}
+					_ = fname
+				}
+			}
+		}
+	}
 	if u.contract != nil {
 		u.props = u.contract.Props
 		u.contract.Used = true
 	}
 	return u
+}
+
+// unitProps: the properties a unit's obligations count for: those of its own contract, else of the interface method
+// contract it implements, else of the funcfield contract of the field it is stored into.
+func unitProps(sh *Shared, cs *ContractSet, fn *ssa.Function) []string {
+	if ct := cs.ByKey[funcKey(fn)]; ct != nil {
+		return ct.Props
+	}
+	if ic, _ := ifaceContractFor(sh, cs, fn); ic != nil {
+		return ic.Props
+	}
+	if fk, ok := sh.fieldOfClosure[fn]; ok {
+		if fc := cs.ByKey[fk]; fc != nil {
+			return fc.Props
+		}
+	}
+	return nil
+}
+
+// fieldContractSig: the func type of the field named by a "pkg.field:Type.field" key.
+func fieldContractSig(sh *Shared, key string) (*types.Signature, string) {
+	i := strings.Index(key, ".field:")
+	if i < 0 {
+		return nil, ""
+	}
+	pkgName, rest := key[:i], key[i+len(".field:"):]
+	j := strings.LastIndex(rest, ".")
+	if j < 0 {
+		return nil, ""
+	}
+	tn, fname := rest[:j], rest[j+1:]
+	for _, p := range sh.ld.Pkgs {
+		if p.Types.Name() != pkgName {
+			continue
+		}
+		obj := p.Types.Scope().Lookup(tn)
+		if obj == nil {
+			continue
+		}
+		st, ok := obj.Type().Underlying().(*types.Struct)
+		if !ok {
+			continue
+		}
+		for k := 0; k < st.NumFields(); k++ {
+			if st.Field(k).Name() == fname {
+				if sig, ok := st.Field(k).Type().Underlying().(*types.Signature); ok {
+					return sig, fname
+				}
+			}
+		}
+	}
+	return nil, ""
 }
 
 func runUnit(u *Unit) (err string) {
@@ -211,12 +284,7 @@ func main() {
 		if *funcFilter != "" && !strings.Contains(key, *funcFilter) {
 			continue
 		}
-		ct := cs.ByKey[key]
-		var ps []string
-		if ct != nil {
-			ps = ct.Props
-		}
-		if !wantProp(ps) {
+		if !wantProp(unitProps(sh, cs, fn)) {
 			continue
 		}
 		fns = append(fns, fn)
@@ -238,11 +306,7 @@ func main() {
 		if !closureEscapesAnywhere(sh, cs, fn) {
 			continue
 		}
-		var ps []string
-		if ct := cs.ByKey[key]; ct != nil {
-			ps = ct.Props
-		}
-		if !wantProp(ps) {
+		if !wantProp(unitProps(sh, cs, fn)) {
 			continue
 		}
 		fns = append(fns, fn)
